@@ -49,8 +49,9 @@ MANIFEST = {'note': 'Trusted: Lean 4.33 kernel (axioms propext, Classical.choice
          'polygon_zero_weight_fallback, polygon_flat_fallback); translation: accumulator_translate (all inputs), '
          'centroid_translate_partial (final weight non-zero), centroid_translate (len positive on distinct points, '
          'no polygon whose holes outweigh its shell, rects min<=max: the final weight is then positive), '
-         'centroid_translate_needs_weight (witness: with cancelling weights the model returns x/0 = 0, the code NaN, '
-         'and the statement fails); uniform scaling by any k != 0 incl. negative, for a |k|-homogeneous length, no '
+         'centroid_translate_needs_weight (witness: with cancelling weights the model returns x/0 = 0, the code '
+         '(+inf, -inf) for the witness and its translate alike, and the statement fails; such inputs have holes that '
+         'outweigh their shell: a limit of the statement, not a defect); uniform scaling by any k != 0 incl. negative, for a |k|-homogeneous length, no '
          'weight condition (accumulator_scale, centroid_scale); hull membership as an explicit convex combination '
          "(non-negative weights summing to 1) of the geometry's coordinates: for every result of dimension 0 or 1 "
          '(centroid_in_hull), for a single hole-free polygon in convex position of either orientation via the fan '
